@@ -120,7 +120,7 @@ def get_ABk_symmetric_extension_ree(rho, dim, kext, use_ppt=False, use_boson=Fal
     cvx_rdm = cvxpy.reshape(cvxpy.reshape(tmp0, tmp0.size, order='F')[index0213_ab], (dimA*dimB,dimA*dimB), order='F')
     constraints = [x>>0 for x in cvxP_list]
     if use_ppt:
-        constraints = +[cvxpy.partial_transpose(x, [dimA,x.shape[0]//dimA], [1])>>0 for x in cvxP_list]
+        constraints += [cvxpy.partial_transpose(x, [dimA,x.shape[0]//dimA], axis=1)>>0 for x in cvxP_list]
     constraints += [sum(cvxpy.trace(x)*y for x,y in zip(cvxP_list,multiplicity_list))==1]
     cvxP, tmp0 = cvx_matrix_mlogx(cvx_rdm, sqrt_order=sqrt_order, pade_order=pade_order)
     constraints += tmp0
